@@ -4,8 +4,10 @@ package simh
 
 import (
 	"fmt"
+	"os"
 	"runtime"
 	"strings"
+	"sync"
 	"testing"
 	"testing/synctest"
 	"time"
@@ -23,52 +25,101 @@ import (
 // leak is non-empty also when leaving the bubble panicked because goroutines remained
 // durably blocked (the case in which onLeak is nil or returned).
 func RunBubble(t *testing.T, opt simrt.Options, caller func(), onLeak func(stacks string)) (res simrt.Result, leak string) {
+	body := func() {
+		opt.WaitQuiescent = synctest.Wait
+		opt.SleepFake = func(d time.Duration) { time.Sleep(d) }
+		// goroutines that are there already: nothing in a fresh bubble; in a long-lived bubble
+		// the engine's own and the leftovers of earlier, aborted runs (knownG)
+		before := knownG
+		nBefore := runtime.NumGoroutine()
+		s := simrt.New(opt)
+		res = s.Run(caller)
+		if res.Outcome != "ok" {
+			if inBubble { // the aborted run's goroutines stay parked in the bubble for good
+				knownG = bubbleGoroutines()
+			}
+			return
+		}
+		time.Sleep(time.Hour)
+		synctest.Wait()
+		if runtime.NumGoroutine() <= nBefore {
+			return
+		}
+		// a goroutine that has left the bubble's accounting may still be on its way out:
+		// only goroutines that persist count
+		st := newBubbleStacks(before)
+		for i := 0; i < 200 && st != ""; i++ {
+			for k := 0; k < 50; k++ {
+				runtime.Gosched()
+			}
+			synctest.Wait()
+			st = newBubbleStacks(before)
+		}
+		if st != "" {
+			leak = "goroutines of the run are still alive one simulated hour after everything went quiet:\n" + st
+			if onLeak != nil {
+				onLeak(leak)
+			}
+		}
+	}
+	if inBubble {
+		body()
+		return res, leak
+	}
 	func() {
 		defer func() {
 			if r := recover(); r != nil && leak == "" {
 				leak = fmt.Sprint(r)
 			}
 		}()
-		synctest.Test(t, func(t *testing.T) {
-			opt.WaitQuiescent = synctest.Wait
-			opt.SleepFake = func(d time.Duration) { time.Sleep(d) }
-			base := runtime.NumGoroutine()
-			s := simrt.New(opt)
-			res = s.Run(caller)
-			if res.Outcome != "ok" {
-				return
-			}
-			time.Sleep(time.Hour)
-			synctest.Wait()
-			if runtime.NumGoroutine() <= base {
-				return
-			}
-			// a goroutine that has left the bubble's accounting may still be on its way out:
-			// only goroutines that persist count
-			st := bubbleStacks()
-			for i := 0; i < 200 && st != ""; i++ {
-				for k := 0; k < 50; k++ {
-					runtime.Gosched()
-				}
-				synctest.Wait()
-				st = bubbleStacks()
-			}
-			if st != "" {
-				leak = "goroutines of the run are still alive one simulated hour after everything went quiet:\n" + st
-				if onLeak != nil {
-					onLeak(leak)
-				}
-			}
-		})
+		synctest.Test(t, func(t *testing.T) { body() })
 	}()
 	return res, leak
 }
 
-// bubbleStacks returns the stacks of the bubble's goroutines other than the caller's own.
-func bubbleStacks() string {
-	buf := make([]byte, 1<<20)
+// inBubble: the engine runs its whole loop of simulated runs inside ONE bubble (InBubble),
+// so that state the code under test keeps across calls — a package-level channel created
+// during an earlier run, say — lives in the same bubble as the run that meets it. (A channel
+// of another bubble is not a durable block for synctest: the run would hang.)
+var inBubble bool
+
+// knownG: ids of the bubble's goroutines that do not belong to the current run (nil in a
+// fresh bubble: everything but the caller is new there).
+var knownG map[string]bool
+
+// InBubble runs body inside one synctest bubble. Returns what leaving the bubble said
+// (goroutines of aborted runs stay parked in it; that is expected).
+func InBubble(t *testing.T, body func()) (exit string) {
+	startHangWatchdog()
+	defer func() {
+		inBubble, knownG = false, nil
+		if r := recover(); r != nil {
+			exit = fmt.Sprint(r)
+		}
+	}()
+	synctest.Test(t, func(t *testing.T) {
+		inBubble = true
+		knownG = bubbleGoroutines()
+		body()
+	})
+	return ""
+}
+
+// bubbleGoroutines returns the ids of the goroutines of the current bubble.
+func bubbleGoroutines() map[string]bool {
+	ids := map[string]bool{}
+	for _, g := range bubbleDump() {
+		ids[g.id] = true
+	}
+	return ids
+}
+
+type gdump struct{ id, text string }
+
+func bubbleDump() []gdump {
+	buf := make([]byte, 1<<21)
 	n := runtime.Stack(buf, true)
-	var out []string
+	var out []gdump
 	mine := ""
 	for i, g := range strings.Split(string(buf[:n]), "\n\n") {
 		head, _, _ := strings.Cut(g, "\n")
@@ -82,14 +133,65 @@ func bubbleStacks() string {
 		if strings.Contains(g, "internal/synctest.Run(") || strings.Contains(g, "testing/synctest.testingSynctestTest(") {
 			continue
 		}
-		// only goroutines of THIS bubble (an earlier run of the same process may have left
-		// goroutines parked in its own, abandoned bubble)
-		if mine != "" && strings.Contains(head, mine+"]") || mine != "" && strings.Contains(head, mine+",") {
-			if len(g) > 1200 {
-				g = g[:1200] + "..."
-			}
-			out = append(out, g)
+		if mine == "" || !(strings.Contains(head, mine+"]") || strings.Contains(head, mine+",")) {
+			continue
 		}
+		id := strings.TrimPrefix(head, "goroutine ")
+		if k := strings.Index(id, " "); k > 0 {
+			id = id[:k]
+		}
+		out = append(out, gdump{id, g})
+	}
+	return out
+}
+
+// newBubbleStacks: stacks of the bubble's goroutines that were not there before the run
+// (the engine's own goroutine and leftovers of earlier, aborted runs excluded).
+func newBubbleStacks(before map[string]bool) string {
+	var out []string
+	for _, g := range bubbleDump() {
+		if before[g.id] {
+			continue
+		}
+		t := g.text
+		if len(t) > 1200 {
+			t = t[:1200] + "..."
+		}
+		out = append(out, t)
 	}
 	return strings.Join(out, "\n\n")
 }
+
+var watchdogOnce sync.Once
+
+// startHangWatchdog: a goroutine outside the bubble that ends the process (exit status 5)
+// when a simulation is running but the scheduler has not taken a step for 25 s of real
+// time. That happens when the code under test blocks in a way synctest does not see as a
+// block (a channel made at package initialisation, outside any bubble; a real lock), so
+// that quiescence is never reached. It is reported as machinery trouble, never as a
+// violation.
+func startHangWatchdog() {
+	watchdogOnce.Do(func() {
+		go func() {
+			last, lastChange := uint64(0), RealNow()
+			for {
+				sleepReal(2 * time.Second)
+				n, active := simrt.Progress()
+				if n != last || !active {
+					last, lastChange = n, RealNow()
+					continue
+				}
+				if RealNow().Sub(lastChange) > 25*time.Second {
+					buf := make([]byte, 1<<20)
+					k := runtime.Stack(buf, true)
+					fmt.Fprintf(os.Stderr, "ENGINE-HANG: no scheduler step for 25 s of real time; goroutines:\n%s\n", buf[:k])
+					os.Exit(5)
+				}
+			}
+		}()
+	})
+}
+
+// sleepReal sleeps on the real clock (this goroutine is outside every bubble, so package
+// time is real for it).
+func sleepReal(d time.Duration) { time.Sleep(d) }
